@@ -50,7 +50,7 @@ NlVariants(f) ==
   \cup {<<NL(8, IF FamClass(f) = "ip" THEN 0 ELSE 1), NL(FamMaxBits(f), IF FamClass(f) = "ip" THEN 0 ELSE 2),
           NL(0, IF FamClass(f) = "ip" THEN 0 ELSE 1)>>}
   \cup {Rep(70, NL(17, IF FamClass(f) = "ip" THEN 0 ELSE 1))}      \* value length > 255
-ApPairs == IF Thorough THEN {<<p, q>> : p \in BOOLEAN, q \in BOOLEAN} ELSE {<<FALSE, FALSE>>, <<TRUE, TRUE>>}
+ApPairs == {<<p, q>> : p \in BOOLEAN, q \in BOOLEAN}
 BodyVariants == {<<>>, <<NL(0, 0)>>, <<NL(1, 0), NL(9, 0), NL(32, 0)>>, Rep(90, NL(24, 0))}
 SweepNlri ==
   UNION {{Beh(Update(<<>>, Base \o <<MpA(t, f, nl)>>, <<>>), Opt(FALSE, FALSE, ap[1], ap[2])) :
